@@ -5,7 +5,7 @@
    leg "mt":     case = anything             result = ( accepts )   (the python side feeds the observed trace to "accept")
    ev    = ( request r ) ( helper_acquire ) ( deliver ) ( receive r ) ( cancel r ) ( drop_held r ) ( start r )
            ( spawn_fail r ) ( exit r ok ) ( drop_running r ) ( orphan_exit r ) ( done r )
-   op    = ( req r kind ) ( poll ) ( wait r ) ( finish r ) ( drop r )
+   op    = ( req r kind ) ( poll ) ( advance secs ) ( wait r ) ( finish r ) ( drop r )
    STATE = ( pool reqs hand nqueue ngone nslots nheld nrunning norphans ndraining ) *)
 From Coq Require Import List NArith Bool.
 From Coq Require String.
@@ -79,6 +79,7 @@ Definition dec_op (x : sx) : option sop :=
   | SL [t; SN r] =>
       if is_sym "wait" t then Some (OWait r)
       else if is_sym "finish" t then Some (OFinish r)
+      else if is_sym "advance" t then Some (OAdvance r)
       else if is_sym "drop" t then Some (ODrop r)
       else None
   | SL [t; SN r; SN k] => if is_sym "req" t then Some (OReq r k) else None
